@@ -4,7 +4,6 @@ import Momo.Proof.TableRemove
   `pvFilterRaws` / `Remove(range)` / `Remove(filter)` / `Assign`, `TryInsert`: the invariant is kept and the rows
   are what the row-list specification says.
 -/
-set_option maxRecDepth 2000
 namespace Momo.Table
 open List
 
